@@ -598,6 +598,7 @@ def h_entry_key(ctx, p):
         ctx.classes['occupied'] += 1
         ctx.req('OUT', ev[1] is not None and slot_ref(p.val, p.z, p.mid, ev[1], (0,)) and p.untouched(), nm + ':occupied',
                 'must return a reference to the key stored in the entry\'s own slot', p, props=ctx.props | {'C12'})
+        inside_rule(ctx, p)     # (C06: on the occupied arm the key handed out is a stored element)
         return
     ctx.classes['vacant'] += 1
     t = p.E.rtag(p.st, p.val)
@@ -3185,6 +3186,8 @@ def props_of_root(body):
     u = unknown_override(body)
     if u:
         out.add(u)
+    if k in INSIDE_ROOTS or k == (ENT, None, 'key'):
+        out.add('C06')
     return out
 
 
@@ -3196,6 +3199,8 @@ OPTIONAL = set()
 def anchors(pid):
     """root keys whose schema serves property pid"""
     ks = {k for k, (props, _) in HANDLERS.items() if pid in props} | {k for k, v in ITER_HOOKS.items() if pid in v[0]}
+    if pid == 'C06':
+        ks |= INSIDE_ROOTS | {(ENT, None, 'key')}
     return sorted(ks - OPTIONAL, key=lambda k: tuple(str(x) for x in k))
 
 
@@ -3362,6 +3367,54 @@ for _k in list(HANDLERS):
             CLASSES[_k] = {'made'}
 
 
+# C06, "every element reference handed out points inside the bytes of the container value itself": the roots
+# whose result IS a reference (or references) to stored elements.  On every normal return each reference in the
+# result must point into a slot of a container the caller owns -- not into the handle it was asked through, a
+# temporary, a static or a copy.  (VacantEntry::key / into_key hand out the key the CALLER supplied, which is not
+# stored yet: not element references, not listed.)
+INSIDE_ROOTS = set()
+
+
+def _refs_in(v, out, d=0):
+    if not isinstance(v, tuple) or not v or d > 8:
+        return
+    if v[0] == 'ref':
+        out.append(v)
+    elif v[0] == 'tuple':
+        for x in v[1]:
+            _refs_in(x, out, d + 1)
+    elif v[0] == 'adt':
+        for x in v[3]:
+            _refs_in(x, out, d + 1)
+    elif v[0] in ('unk', 'opq'):
+        out.append(v)
+
+
+def inside_rule(ctx, p):
+    refs = []
+    _refs_in(p.val, refs)
+    for r in refs:
+        if r[0] != 'ref':
+            # an unknown value where element references are expected: whether they point into the container is open
+            if r[0] == 'unk' and isinstance(r[1], dict) and _ty_has_ref(r[1]):
+                ctx.req('INSIDE', False, ctx.body.name, 'the result is a value the analysis cannot resolve, where references '
+                        'to stored elements are expected (%s)' % (str(r)[:160],), p, props={'C06'})
+            continue
+        t = r[2]
+        ms = p.st.maps.get(t[1]) if isinstance(t, tuple) and len(t) > 1 and t[0] == 'pair' else None
+        ok = ms is not None and ms.borrowed and not ms.dead
+        ctx.req('INSIDE', ok, ctx.body.name, 'every element reference handed out must point into a slot of the container '
+                'itself (this one points to %s)' % (str(t)[:160],), p, props={'C06'})
+
+
+def _ty_has_ref(t, d=0):
+    if not isinstance(t, dict) or d > 6:
+        return False
+    if t.get('k') == 'ref':
+        return True
+    return any(_ty_has_ref(x, d + 1) for x in (t.get('args') or []) + (t.get('elems') or []) + ([t['to']] if 'to' in t else []))
+
+
 def check_root(E, body, rr):
     key = root_key(body)
     digest = {'root_key': '%s/%s/%s' % key}
@@ -3418,6 +3471,8 @@ def check_root(E, body, rr):
                 if e[0] == 'variant-val':
                     p.variant_fields[e[2]] = e[3]
             fn(ctx, p)
+            if key in INSIDE_ROOTS:
+                inside_rule(ctx, p)
         uh = UNWIND_HANDLERS.get(key)
         if uh is not None:
             uctx = Ctx(E, body, set(uh[0]))
@@ -3487,6 +3542,16 @@ for _path in (DIFF, DIFFREF, INTER, UNION, SYMDIFF):
     HANDLERS[(_path, 'Debug', 'fmt')] = ({'C19'}, h_fmt_via_clone)
     CLASSES[(_path, 'Debug', 'fmt')] = {'rendered-clone'}
     CLASSES[(_path, 'Clone', 'clone')] = {'made'}
+
+for _k in list(HANDLERS):
+    if (_k[0] == MAP and _k[1] is None and _k[2] in ('get', 'get_mut', 'get_key_value')) \
+            or (_k[0] == MAP and _k[1] in ('Index', 'IndexMut')) or (_k[0] == SET and _k[2] == 'get') \
+            or (_k[0] == OCC and _k[2] in ('key', 'get', 'get_mut', 'into_mut')) \
+            or (_k[0] == ENT and _k[2] in ('or_insert', 'or_insert_with', 'or_insert_with_key', 'or_default')) \
+            or _k == (VAC, None, 'insert') \
+            or (_k[0] in (ITER, ITERMUT, KEYS, VALUES, VALUESMUT, SETITER, DIFF, DIFFREF, INTER, UNION, SYMDIFF)
+                and _k[1] == 'Iterator' and _k[2] == 'next'):
+        INSIDE_ROOTS.add(_k)
 
 UNWIND_HANDLERS.update({
     (ENT, None, 'or_insert_with'): ({'C11'}, u_or_insert('with')),
